@@ -4,6 +4,7 @@
   Model: EEM.Model.TempAgg (hand model, tied to the data classes by ./check C09).
 -/
 import EEM.Model.TempAgg
+import EEM.Gen.Thresholds
 import EEM.Props.C08
 import Mathlib.Tactic.Linarith
 import Mathlib.Tactic.FieldSimp
@@ -254,5 +255,47 @@ example : (hourlyDay 0 1440 [(0, some 60), (60, none), (120, some 62), (1440, so
   decide +kernel
 example : (hourlyDay 0 1440 [(0, some 60), (60, none), (120, none), (180, none)]).temp = none := by
   decide +kernel
+
+/-! ### T1: the row rules regenerated from the source -/
+open EEM.Gen.Thresholds
+
+/-- **the source's blanking rule is `2·present ≤ total`** (`_DailyData._compute_temperature_features`, regenerated:
+`EEM.Gen.Thresholds.tempInvalidDaily`) for every day that has readings at all; a day without any reading has no mean to
+blank (the source divides 0/0 there: NaN ≤ 0.5 is false, and the mean is already NaN) -/
+theorem C09_src_invalid_daily (nn nl : Nat) (h : 0 < nn + nl) :
+    tempInvalidDaily (nn : Rat) (nl : Rat) = decide (2 * nn ≤ nn + nl) := by
+  unfold tempInvalidDaily
+  rw [Bool.eq_iff_iff]
+  simp only [decide_eq_true_eq]
+  have hp : (0 : Rat) < (nn : Rat) + (nl : Rat) := by exact_mod_cast h
+  rw [div_le_iff₀ hp]
+  constructor
+  · intro hh
+    have : (2 * nn : Rat) ≤ nn + nl := by linarith
+    exact_mod_cast this
+  · intro hh
+    have : (2 * nn : Rat) ≤ nn + nl := by exact_mod_cast hh
+    linarith
+
+/-- the billing class adds the median rule and nothing else: blanked iff `2·present ≤ total` or `2·present ≤ median` -/
+theorem C09_src_invalid_billing (nn nl : Nat) (med : Rat) (h : 0 < nn + nl) :
+    tempInvalidBilling (nn : Rat) (nl : Rat) med = (decide (2 * nn ≤ nn + nl) || decide ((2 * nn : Rat) ≤ med)) := by
+  have h1 := C09_src_invalid_daily nn nl h
+  unfold tempInvalidDaily at h1
+  unfold tempInvalidBilling
+  rw [h1]
+  congr 1
+  rw [Bool.eq_iff_iff]
+  simp only [decide_eq_true_eq]
+  constructor <;> intro hh <;> linarith
+
+/-- hence the model's day is the source's rule applied to the day's own counts -/
+theorem C09_src_hourlyDay_rule (s e : Int) (rs : List Reading)
+    (h : 0 < notNull (inDay s e rs) + null (inDay s e rs)) :
+    (hourlyDay s e rs).temp =
+      if tempInvalidDaily (notNull (inDay s e rs) : Rat) (null (inDay s e rs) : Rat) then none
+      else mean (presentVals (inDay s e rs)) := by
+  rw [C09_src_invalid_daily _ _ h]
+  simp [hourlyDay]
 
 end EEM.Props.C09
